@@ -299,7 +299,7 @@ CHECKS["C01"] = {
     "technique": "executable Coq reference semantics with partial proofs + differential execution of the real emitted C++ (g++, ASan/UBSan) against it over generated programs and worlds",
     "design_ref": "5 C01",
     "note": "PARTIAL: the unbounded claim (all programs x all worlds) is not a theorem. Trusted: g++, the API model (cxxrt/qtmock.h + vlib/cxx.py), Sem.v as the reading of "
-            "docs/language.md; programs are generated inside the fragment Sem.v covers (bool/int/uint/QString/VObj*; no double, enum, list, variant arithmetic -- those "
+            "docs/language.md; programs are generated inside the fragment Sem.v covers (bool/int/uint/double/QString/VObj*: doubles are IEEE-754 binary64 through Coq's SpecFloat, with NaN, infinities and signed zeros in the worlds; no enum, list, variant arithmetic -- those "
             "types are exercised for validity under C16 and for typing under C05). IR equality model/implementation is established by C05/C06/C07's K legs.",
 }
 
